@@ -7,6 +7,8 @@ import (
 	"os"
 	"strings"
 	"time"
+
+	"github.com/diiyw/nodis/ds/zset"
 )
 
 func main() {
@@ -67,6 +69,8 @@ type state struct {
 	inst    map[string]*instance
 	current string
 	clients map[string]*client
+	sl      *zset.VerifSL   // current bare skiplist of the sl ops
+	slz     *zset.SortedSet // current sorted set of the slz ops
 }
 
 func newState() *state { return &state{inst: map[string]*instance{}, clients: map[string]*client{}} }
@@ -94,6 +98,10 @@ func (st *state) dispatch(toks []string) (string, string) {
 		return st.respOp(toks)
 	case "scanall":
 		return st.scanAll(toks)
+	case "sl":
+		return st.slOp(toks)
+	case "slz":
+		return st.slzOp(toks)
 	}
 	return "bad-op", ""
 }
